@@ -39,7 +39,6 @@ import (
 	"fmt"
 	"go/types"
 	"io"
-	"reflect"
 	"strings"
 	"sync"
 	"unsafe"
@@ -235,8 +234,8 @@ func equals(t types.Type, x, y value) bool {
 		return x == y.(string)
 	case *value:
 		return x == y.(*value)
-	case chan value:
-		return x == y.(chan value)
+	case *schan:
+		return x == y.(*schan)
 	case structure:
 		return x.eq(t, y)
 	case array:
@@ -296,8 +295,11 @@ func hash(outer, t types.Type, x value) int {
 		return hashString(x)
 	case *value:
 		return int(uintptr(unsafe.Pointer(x)))
-	case chan value:
-		return int(uintptr(reflect.ValueOf(x).Pointer()))
+	case *schan:
+		if x == nil {
+			return 0
+		}
+		return x.id
 	case structure:
 		return x.hash(t)
 	case array:
@@ -388,8 +390,8 @@ func writeValue(buf *bytes.Buffer, v value) {
 		}
 		buf.WriteString("]")
 
-	case chan value:
-		fmt.Fprintf(buf, "%v", v) // (an address)
+	case *schan:
+		fmt.Fprintf(buf, "chan#%p", v)
 
 	case *value:
 		if v == nil {
